@@ -159,25 +159,29 @@ func (r *Resolver) AutoTA() {
 
 	tombstones, err := readTombstones(tombstonePath)
 	if err != nil {
-		// Distinguish "transient inability to read" from "actual
-		// corruption". A sharing violation on Windows (concurrent
-		// writer renaming over the file) or a permission hiccup is
-		// not the same as a malformed gob payload. We only fail
-		// closed when we successfully read bytes that don't decode
-		// — readTombstones surfaces that as errCorruptTombstones.
-		// Other open errors leave us with an empty in-memory map
-		// and the next AutoTA tick (or a process restart in the
-		// non-transient case) can re-load.
+		// The tombstone store is the only durable record of an accepted
+		// revocation once the StateRevoked marker has been dropped from
+		// the state file. Whatever keeps it from being read — a payload
+		// that does not decode, or an open that fails with anything but
+		// "no such file" (EIO, EACCES, EMFILE, a sharing violation) —
+		// leaves this run unable to tell which configured or stored
+		// keys were revoked. Carrying on with an empty in-memory store
+		// would merge a revoked key that is still listed in the
+		// configuration back in as a valid anchor, and the persistence
+		// tail would then overwrite the real store with the empty one,
+		// forgetting the revocation for good. Fail closed instead and
+		// write nothing; the next tick re-reads the store, so a
+		// transient error heals itself.
 		if errors.Is(err, errCorruptTombstones) {
 			zlog.Error("Trust anchor tombstones file corrupted — clearing in-memory trust set and aborting refresh", "path", tombstonePath, "error", err.Error())
-			r.Lock()
-			r.rootKeys = nil
-			r.Unlock()
-			refreshResult = taRefreshPersistenceError
-			return
+		} else {
+			zlog.Error("Trust anchor tombstones file unreadable — clearing in-memory trust set and aborting refresh", "path", tombstonePath, "error", err.Error())
 		}
-		zlog.Warn("Trust anchor tombstones file unreadable — proceeding with empty in-memory tombstones", "path", tombstonePath, "error", err.Error())
-		tombstones = make(Tombstones)
+		r.Lock()
+		r.rootKeys = nil
+		r.Unlock()
+		refreshResult = taRefreshPersistenceError
+		return
 	}
 
 	// Copy legacy Revoked/Removed entries into the material-keyed
